@@ -37,6 +37,10 @@ func (p *Plugin) Start(_ pipeline.AnyConfig, params *pipeline.OutputPluginParams
 func (_ *Plugin) Stop() {}
 
 func (p *Plugin) Out(event *pipeline.Event) {
-	fmt.Println(event.Root.EncodeToString()) // nolint:forbidigo
+	// the parent of spawned children (split action) is passed on only to be committed,
+	// its subtrees belong to the children now (see pipeline.Batch.ForEach)
+	if !event.IsChildParentKind() {
+		fmt.Println(event.Root.EncodeToString()) // nolint:forbidigo
+	}
 	p.controller.Commit(event)
 }
